@@ -52,11 +52,29 @@ fn opt_close(a: &Option<Rat>, b: &Option<Rat>, tol: &Rat) -> bool {
 fn describe(m: &MDelta) -> String { format!("{:?} {} sd={} bal={} all={} acb={:?} gain={:?} sfl={}", m.act, m.af, m.sd, m.share_bal, m.all_bal, m.acb, m.gain, m.sfl) }
 fn describe_n(n: &NRow) -> String { format!("{:?} {} sd={} bal={} all={} acb={:?} gain={:?} sfl={}{}", n.act, n.af, n.sd, n.share_bal, n.all_bal, n.acb, n.gain, n.sfl, if n.auto { " (auto)" } else { "" }) }
 
+pub fn dump(model: &[MDelta], tool: &[NRow]) -> String {
+    let mut s = String::from("--- tool rows\n");
+    for (i, t) in tool.iter().enumerate() { s += &format!("#{i} {}\n", describe_n(t)); }
+    s += "--- model rows\n";
+    for (i, m) in model.iter().enumerate() { s += &format!("#{i} {}{}\n", describe(m), if m.src.is_none() { format!(" (auto {})", m.adj_amount.as_ref().unwrap()) } else { String::new() }); }
+    s
+}
+
 pub struct CmpStats { pub user_rows: usize, pub auto_rows: usize, pub superficial: usize }
 
 /// Compare the tool's rows with the model's. `prefix`: the tool's list may stop early (rejected
 /// history); then only the rows present are compared and the number of *user* rows matched is returned.
-pub fn compare(model: &[MDelta], tool: &[NRow], prefix: bool, what: &CmpWhat) -> Result<CmpStats, String> {
+pub fn compare(model: &[MDelta], tool: &[NRow], prefix: bool, what: &CmpWhat) -> Result<CmpStats, String> { compare_at(model, tool, prefix, what).map_err(|e| e.0) }
+
+/// Like `compare`; the error also carries the index of the model row (a user row) at which, or in
+/// whose automatic adjustments, the first difference was found.
+pub fn compare_at(model: &[MDelta], tool: &[NRow], prefix: bool, what: &CmpWhat) -> Result<CmpStats, (String, Option<usize>)> {
+    let mut at: Option<usize> = None;
+    let r = compare_inner(model, tool, prefix, what, &mut at);
+    r.map_err(|e| (e, at))
+}
+
+fn compare_inner(model: &[MDelta], tool: &[NRow], prefix: bool, what: &CmpWhat, at: &mut Option<usize>) -> Result<CmpStats, String> {
     let tol = tol9();
     let (mut i, mut j) = (0usize, 0usize);
     let mut st = CmpStats { user_rows: 0, auto_rows: 0, superficial: 0 };
@@ -64,6 +82,7 @@ pub fn compare(model: &[MDelta], tool: &[NRow], prefix: bool, what: &CmpWhat) ->
         if i >= model.len() { return Err(format!("tool has extra row #{j}: {}", describe_n(&tool[j]))); }
         let m = &model[i];
         let t = &tool[j];
+        *at = Some(i);
         if m.src.is_none() { return Err(format!("internal alignment: model auto row at {i} without a sale")); }
         if t.auto { return Err(format!("tool row #{j} is an automatic adjustment the model does not expect here: {}\n model next: {}", describe_n(t), describe(m))); }
         if m.act == Act::Split && t.act == Act::Split {
